@@ -356,48 +356,26 @@ func knownSetTimeRangeSeq(args []string) string {
 	if d == "" || d == "skip" {
 		return ""
 	}
-	survives, call := false, false
-	var walk func(e influxql.Expr)
-	walk = func(e influxql.Expr) {
-		switch v := e.(type) {
-		case *influxql.ParenExpr:
-			walk(v.Expr)
-		case *influxql.BinaryExpr:
-			if v.Op == influxql.AND || v.Op == influxql.OR {
-				walk(v.LHS)
-				walk(v.RHS)
-				return
-			}
-			if isTimeVarRef(v.LHS) || isTimeVarRef(v.RHS) {
-				if v.LHS.String() != "time" {
-					survives = true
-				}
-				return
-			}
-			influxql.WalkFunc(v, func(n influxql.Node) {
-				if _, ok := n.(*influxql.Call); ok {
-					call = true
-				}
-			})
-		}
-	}
-	walk(cond)
-	if survives {
-		return "C18-bound-not-written-time-on-the-left-survives"
-	}
-	if call {
-		return "C18-call-in-predicate-becomes-true"
-	}
-	// after the rewrite the top of the printed condition is an OR
-	top := cond
-	rew := influxql.RewriteFunc(influxql.CloneExpr(top), func(n influxql.Node) influxql.Node {
-		if be, ok := n.(*influxql.BinaryExpr); ok && be.LHS.String() == "time" {
+	// (Before the fixes 51161c4 / 86fc254 of /repo there were two more classes: bounds not written
+	// `time <op> x` survived, and every call became true. They are repaired; a failure of that
+	// kind is no longer excused.)
+	// An OR at the top of the rewritten condition captures the window: the class applies only when
+	// the same condition in parentheses passes, i.e. the missing parentheses are the cause.
+	rew := influxql.RewriteFunc(influxql.CloneExpr(cond), func(n influxql.Node) influxql.Node {
+		if be, ok := n.(*influxql.BinaryExpr); ok && (isTimeVarRef(be.LHS) || isTimeVarRef(be.RHS)) {
 			return &influxql.BooleanLiteral{Val: true}
 		}
 		return n
 	})
 	if be, ok := rew.(*influxql.BinaryExpr); ok && be.Op == influxql.OR {
-		return "C18-top-level-or-captures-the-window"
+		text, _ := decStr(args[0])
+		wrapped := append([]string{encStr("(" + text + ")")}, args[1:]...)
+		if len(wrapped) > 2 {
+			wrapped[2] = encLower(text)
+		}
+		if d2 := propSetTimeRangeSeq(wrapped); d2 == "" || d2 == "skip" { // skip: a later window is not representable
+			return "C18-top-level-or-captures-the-window"
+		}
 	}
 	// the condition itself does not survive print -> parse (printing defects recorded under C02/C03)
 	if re, err := parseExprWith(cond.String(), nil); err != nil || !exprEqual(re, cond) {
@@ -433,13 +411,14 @@ func randWindows(r *rand.Rand) []window {
 	return ws
 }
 
-func randTimeOnLeftCond(r *rand.Rand, depth int, timeOK bool) string {
+func randSTRCond(r *rand.Rand, depth int, timeOK bool) string {
 	if depth <= 0 || r.Intn(3) == 0 {
 		if timeOK && r.Intn(2) == 0 {
 			op := pick(r, []string{"=", "<", "<=", ">", ">="})
-			name := "time"
-			if r.Intn(6) == 0 {
-				name = `"time"`
+			// time in any letter case, quoted, typed, on either side (all recognised since 51161c4)
+			name := randTimeName(r)
+			if r.Intn(4) == 0 {
+				return randTimeOperand(r, true) + " " + op + " " + name
 			}
 			return name + " " + op + " " + randTimeOperand(r, true)
 		}
@@ -455,16 +434,16 @@ func randTimeOnLeftCond(r *rand.Rand, depth int, timeOK bool) string {
 	}
 	switch r.Intn(7) {
 	case 0, 1, 2:
-		return randTimeOnLeftCond(r, depth-1, timeOK) + " AND " + randTimeOnLeftCond(r, depth-1, timeOK)
+		return randSTRCond(r, depth-1, timeOK) + " AND " + randSTRCond(r, depth-1, timeOK)
 	case 3:
-		return "(" + randTimeOnLeftCond(r, depth-1, false) + " OR " + randTimeOnLeftCond(r, depth-1, false) + ")"
+		return "(" + randSTRCond(r, depth-1, false) + " OR " + randSTRCond(r, depth-1, false) + ")"
 	case 4:
 		if depth >= 2 && r.Intn(3) == 0 { // a top-level / unparenthesised OR (known finding class)
-			return randTimeOnLeftCond(r, depth-1, false) + " OR " + randTimeOnLeftCond(r, depth-1, false)
+			return randSTRCond(r, depth-1, false) + " OR " + randSTRCond(r, depth-1, false)
 		}
-		return "(" + randTimeOnLeftCond(r, depth-1, false) + " OR " + randTimeOnLeftCond(r, depth-1, false) + ") AND " + randTimeOnLeftCond(r, depth-1, timeOK)
+		return "(" + randSTRCond(r, depth-1, false) + " OR " + randSTRCond(r, depth-1, false) + ") AND " + randSTRCond(r, depth-1, timeOK)
 	default:
-		return "(" + randTimeOnLeftCond(r, depth-1, timeOK) + ")"
+		return "(" + randSTRCond(r, depth-1, timeOK) + ")"
 	}
 }
 
@@ -495,7 +474,7 @@ func genSetTimeRangeSeq(r *rand.Rand, n int, emit func(args ...string)) {
 		case 8:
 			text = ""
 		default:
-			text = randTimeOnLeftCond(r, 1+r.Intn(4), true)
+			text = randSTRCond(r, 1+r.Intn(4), true)
 		}
 		emit(encStr(text), encWindows(randWindows(r)), encLower(text))
 	}
